@@ -5,6 +5,10 @@
 //   case: {"id":N,"dir":"/abs/case/dir","xsl":"main.xsl","xml":"in.xml","params":{name:"expr"},
 //          "trace":"none"|"templates"|"all","select":true|false,"reuse":false}
 // events: {"e":"Reset","id":N}  {"e":"T",...}  {"e":"S",...}  {"e":"Done","id":N,"status":s,"msg":"..","tree":[...]}
+#include <sys/time.h>
+#include <signal.h>
+#include <unistd.h>
+#include <string.h>
 #include "xsltrec.hpp"
 #include <map>
 #include <xalanc/XSLT/VariablesStack.hpp>
@@ -21,8 +25,17 @@ static void vsObserver(const char* op, const XalanQName* name, unsigned long a, 
             ",\"c\":" + std::to_string(c) + ",\"size\":" + std::to_string(size) + "}\n";
 }
 
+// a transformation that does not finish within its CPU budget is a hang: say so on stderr and leave (exit code 3); the driver
+// reports the case without a Done event as a violation
+static void onHang(int) { static const char m[] = "HANG: transformation exceeded its CPU budget (60 s)\n"; ssize_t r = write(2, m, sizeof m - 1); (void)r; fflush(stdout); _exit(3); }
+static void budget(int seconds) {
+    struct itimerval t; memset(&t, 0, sizeof t); t.it_value.tv_sec = seconds;
+    setitimer(ITIMER_VIRTUAL, &t, 0);
+}
+
 int main(int argc, char** argv) {
     if (argc < 2) { fprintf(stderr, "usage: %s cases.ndjson\n", argv[0]); return 2; }
+    signal(SIGVTALRM, onHang);
     Platform platform;
     XalanTransformer::initialize();
     {
@@ -30,6 +43,7 @@ int main(int argc, char** argv) {
         std::unique_ptr<XalanTransformer> shared;
         for (auto& line : lines) {
             J c = parseJson(line);
+            budget(60);
             const long long id = c.num("id");
             const std::string dir = c.str("dir");
             std::unique_ptr<XalanTransformer> own;
